@@ -9,24 +9,29 @@ From FH Require Import Model.Base Gen.GenC36 Spec.NetHttpRW.
 Open Scope N_scope.
 
 (* ------------------------------------------------------------------ *)
-(* writer: the http.ResponseWriter handed to the net/http handler.
-   w_code    : writer.statusCode (0 = not set)
-   w_h       : writer.h
-   w_buf     : writer.responseBody (bytes written before the first Flush)
-   w_flushed : set by the first Flush: what the fasthttp goroutine copied into ctx.Response while the
-               handler was blocked in Flush (status, header map) — modeFlushed branch
-   w_pipe    : bytes written to the io.Pipe after streamReady was closed
-   w_panic   : WriteHeader panicked (invalid code) *)
+(* writer: the http.ResponseWriter handed to the net/http handler (as of 8ad8bae).
+   w_committed : set once by commit (commitOnce): the status code given (0 = none: status() picks the default) and
+                 the snapshot writer.frozen of the header map
+   w_h         : writer.h (the live map)
+   w_buf       : writer.responseBody (bytes written before the first Flush)
+   w_flushed   : the first Flush happened: the fasthttp goroutine copied status() and committedHeader() into
+                 ctx.Response while the handler was blocked in Flush (modeFlushed branch)
+   w_pipe      : bytes written to the io.Pipe after streamReady was closed
+   w_panic     : WriteHeader panicked (invalid code) *)
 Record wstate := {
-  w_code : Z; w_h : hmap; w_buf : bytes;
-  w_flushed : option (Z * hmap);
+  w_committed : option (Z * hmap); w_h : hmap; w_buf : bytes;
+  w_flushed : bool;
   w_pipe : bytes; w_panic : bool
 }.
 Definition w_init : wstate :=
-  {| w_code := 0; w_h := []; w_buf := []; w_flushed := None; w_pipe := []; w_panic := false |}.
+  {| w_committed := None; w_h := []; w_buf := []; w_flushed := false; w_pipe := []; w_panic := false |}.
 
-(* writer.status: a fresh RequestCtx reports StatusOK for an unset status, so the ctx fallback is 200 *)
-Definition w_status (w : wstate) : Z := if (w_code w =? 0)%Z then StatusOK else w_code w.
+(* writer.commit(code): only the first call has an effect *)
+Definition w_commit (w : wstate) (c : Z) : wstate :=
+  match w_committed w with
+  | Some _ => w
+  | None => {| w_committed := Some (c, w_h w); w_h := w_h w; w_buf := w_buf w; w_flushed := w_flushed w; w_pipe := w_pipe w; w_panic := w_panic w |}
+  end.
 
 (* modeFlushed: "No Content-Length when streaming": the key is compared with == on the canonical key *)
 Definition drop_content_length (h : hmap) : hmap := h_del h hdrContentLength.
@@ -36,33 +41,35 @@ Definition w_step (w : wstate) (o : op) : wstate :=
   match o with
   | WriteHeader c =>
       if ((c <? 100) || (c >? 999))%Z then
-        {| w_code := w_code w; w_h := w_h w; w_buf := w_buf w; w_flushed := w_flushed w; w_pipe := w_pipe w; w_panic := true |}
+        {| w_committed := w_committed w; w_h := w_h w; w_buf := w_buf w; w_flushed := w_flushed w; w_pipe := w_pipe w; w_panic := true |}
       else if ((100 <=? c) && (c <=? 199) && negb (c =? StatusSwitchingProtocols))%Z then w
-      else if (w_code w =? 0)%Z then     (* CompareAndSwap(0, code) *)
-        {| w_code := c; w_h := w_h w; w_buf := w_buf w; w_flushed := w_flushed w; w_pipe := w_pipe w; w_panic := false |}
-      else w
+      else w_commit w c
   | Write b =>
-      match w_flushed w with
-      | Some _ => {| w_code := w_code w; w_h := w_h w; w_buf := w_buf w; w_flushed := w_flushed w; w_pipe := w_pipe w ++ b; w_panic := false |}
-      | None => {| w_code := w_code w; w_h := w_h w; w_buf := w_buf w ++ b; w_flushed := None; w_pipe := w_pipe w; w_panic := false |}
-      end
+      let w' := w_commit w 0%Z in
+      if w_flushed w'
+      then {| w_committed := w_committed w'; w_h := w_h w'; w_buf := w_buf w'; w_flushed := true; w_pipe := w_pipe w' ++ b; w_panic := false |}
+      else {| w_committed := w_committed w'; w_h := w_h w'; w_buf := w_buf w' ++ b; w_flushed := false; w_pipe := w_pipe w'; w_panic := false |}
   | Flush =>
-      match w_flushed w with
-      | Some _ => w                        (* flushOnce; streamReady already closed *)
-      | None => {| w_code := w_code w; w_h := w_h w; w_buf := w_buf w;
-                   w_flushed := Some (w_status w, drop_content_length (w_h w)); w_pipe := []; w_panic := false |}
-      end
-  | _ => {| w_code := w_code w; w_h := hdr_step (w_h w) o; w_buf := w_buf w; w_flushed := w_flushed w; w_pipe := w_pipe w; w_panic := false |}
+      let w' := w_commit w 0%Z in
+      {| w_committed := w_committed w'; w_h := w_h w'; w_buf := w_buf w'; w_flushed := true; w_pipe := w_pipe w'; w_panic := false |}
+  | _ => {| w_committed := w_committed w; w_h := hdr_step (w_h w) o; w_buf := w_buf w; w_flushed := w_flushed w; w_pipe := w_pipe w; w_panic := false |}
   end.
 
 Definition w_run (p : prog) : wstate := fold_left w_step p w_init.
 
-(* what NewFastHTTPHandler puts into ctx.Response: status, the header entries it Add()s, the body
-   (modeDone: responseBody; modeFlushed: pre-flush bytes then everything read from the pipe) *)
-Definition w_out_status (w : wstate) : Z := match w_flushed w with Some (c, _) => c | None => w_status w end.
-Definition w_out_hdr (w : wstate) : hmap := match w_flushed w with Some (_, h) => h | None => w_h w end.
-Definition w_out_body (w : wstate) : bytes := match w_flushed w with Some _ => w_buf w ++ w_pipe w | None => w_buf w end.
+(* writer.status: the committed code, or (code 0 / never committed) the ctx status, which is StatusOK for a fresh RequestCtx *)
+Definition w_out_status (w : wstate) : Z :=
+  match w_committed w with Some (c, _) => if (c =? 0)%Z then StatusOK else c | None => StatusOK end.
+(* committedHeader(), without Content-Length when streaming *)
+Definition w_out_hdr (w : wstate) : hmap :=
+  match w_committed w with
+  | Some (_, fh) => if w_flushed w then drop_content_length fh else fh
+  | None => w_h w
+  end.
+(* modeDone: responseBody; modeFlushed: pre-flush bytes then everything read from the pipe *)
+Definition w_out_body (w : wstate) : bytes := if w_flushed w then w_buf w ++ w_pipe w else w_buf w.
 
+(* ------------------------------------------------------------------ *)
 (* hasHeaderValue: headerValueScanner cuts at commas, stripSpace removes SP / HTAB at both ends (c40b715),
    caseInsensitiveCompare ignores bit 0x20 *)
 Fixpoint split_comma_acc (s cur : bytes) : list bytes :=
